@@ -263,6 +263,23 @@ func runC13(tier string) int {
 		// a use before the definition is not a later use
 		before := "script S0 {\n\tcmd(" + d.name + ")\n}\n"
 		eval(fmt.Sprintf("use-before-definition defs#%d", di), before+head+c13Fill(map[int]string{0: d.name}), before+blank+c13Fill(map[int]string{0: d.expanded}), multi)
+		// ... at any site: an earlier script, mapscripts and mart use the name at EVERY site before the definition (there it
+		// is an ordinary identifier); each later use is replaced all the same
+		allName := map[int]string{}
+		for i := 0; i < c13Sites; i++ {
+			allName[i] = d.name
+		}
+		beforeAll := strings.NewReplacer("script S {", "script S0 {", "mapscripts M {", "mapscripts M0 {", "mart Mt {", "mart Mt0 {").Replace(c13Fill(allName))
+		if probe := comp.Compile(beforeAll, opts); probe.Err == nil {
+			for i := 0; i < c13Sites; i++ {
+				if (d.parens && c13NoParens[i]) || (i == 18 && !identOnly(d.expanded)) {
+					continue
+				}
+				eval(fmt.Sprintf("use-before-and-after-definition site%d defs#%d", i, di), beforeAll+head+c13Fill(map[int]string{i: d.name}), beforeAll+blank+c13Fill(map[int]string{i: d.expanded}), multi)
+			}
+		} else {
+			r.Note("use-before-definition prefix rejected for defs#%d: %v", di, probe.Err)
+		}
 		// redefinition is rejected on its line
 		for k := range d.lines {
 			redefName := strings.Fields(d.lines[k])[1]
@@ -421,7 +438,7 @@ func runC13(tier string) int {
 	r.Assume("values with parentheses are only used at sites where nested parentheses can be written out literally (command arguments, value(...))",
 		"const lines are replaced by blank lines so that line markers stay comparable")
 	return r.Finish(r.Get("evaluations"), r.Get("nontrivial"),
-		"17 definition sets (a value naming a constant that is defined later; single token, multi-token, parenthesised, const from const two levels deep, hex, negative, multi-byte value; constant names with a non-ASCII first letter, a non-ASCII letter inside, a leading underscore, lower case with digits) x every single use site, every pair and triple (thorough: quadruple) and all 32 documented use sites (incl. the var argument of AutoVar commands with var_name_arg_position 0 and 1, and command arguments written name=CONST) (five of them inside a larger expression) at once (command argument incl. nested, flag/var/defeated operands, comparison values incl. value(), switch operand and case value, AutoVar argument and comparison, goto target, map-script table var/value and inline body, mart item) + 9 non-positions (command name, movement step, label, moves() step, text content, script/text/mapscripts names, raw, poryswitch case label selected by -s) + use before definition + redefinition + every identifier-like literal of the compiler's own source as a constant's name and as its value at every site + constant trees (a base of T tokens for every T up to a bound, two extensions, constants composed from the first extension defined before / after the second) + chains of K constants and K independent constants for every K up to the bound in the coverage; outputs compared byte for byte with line markers on, optimize on/off; also every program of the control-flow families (C01 / C03 / C04 bounds) with every operand, comparison value and case value written as a constant; non-trivial = multi-token or chained definition")
+		"17 definition sets (a value naming a constant that is defined later; single token, multi-token, parenthesised, const from const two levels deep, hex, negative, multi-byte value; constant names with a non-ASCII first letter, a non-ASCII letter inside, a leading underscore, lower case with digits) x every single use site, every pair and triple (thorough: quadruple) and all 32 documented use sites (incl. the var argument of AutoVar commands with var_name_arg_position 0 and 1, and command arguments written name=CONST) (five of them inside a larger expression) at once (command argument incl. nested, flag/var/defeated operands, comparison values incl. value(), switch operand and case value, AutoVar argument and comparison, goto target, map-script table var/value and inline body, mart item) + 9 non-positions (command name, movement step, label, moves() step, text content, script/text/mapscripts names, raw, poryswitch case label selected by -s) + use before definition (one site, and every site at once followed by the definition and a use at each site) + redefinition + every identifier-like literal of the compiler's own source as a constant's name and as its value at every site + constant trees (a base of T tokens for every T up to a bound, two extensions, constants composed from the first extension defined before / after the second) + chains of K constants and K independent constants for every K up to the bound in the coverage; outputs compared byte for byte with line markers on, optimize on/off; also every program of the control-flow families (C01 / C03 / C04 bounds) with every operand, comparison value and case value written as a constant; non-trivial = multi-token or chained definition")
 }
 
 var (
